@@ -253,6 +253,11 @@ func vsRunHistory(size0 int64, gen func(h *vsHist, step int) *vsOp) *vsHist {
 			if len(waiting) > 0 && waiting[0] > 0 && size-cur >= waiting[0] {
 				h.fails["sem_lost_wakeup"] = true
 			}
+			// remark (Props/C29.v, C29_remark_zero_weight_waiter): a zero-weight front waiter can be left in
+			// the list when the waiter before it is cancelled at cur == size; counted, not a violation
+			if len(waiting) > 0 && waiting[0] == 0 && size-cur >= 0 {
+				h.kinds["remark_zero_weight_front_left_waiting"] = true
+			}
 			if len(grantedNow) > 0 && (op.kind == 'R' || op.kind == 'S') {
 				h.kinds["grant_from_list"] = true
 			}
